@@ -299,6 +299,25 @@ def run_union(run):
             "union); every lexical value also goes to every member type on its own; five hint sets (data, schema = base 0, JSON string / number / boolean)"
             % (len(unions), len(MEMBER_POOL)))
 
+    # ---- a finite sub-space enumerated completely
+    ex_alpha = b"01+- a."
+    ex_unions = ["U(i8|str:0..2)", "U(str:1..1|i16)", "U(d1|u8|%s)" % E2]
+    ex_strings = [bytes(t) for L in range(0, cx.n(3, 4) + 1) for t in itertools.product(ex_alpha, repeat=L)]
+    ex_cases = []
+    for u in ex_unions:
+        members[u] = flatten(u)
+        lex_of[u] = ex_strings
+        if u not in unions:
+            unions.append(u)
+        for s in ex_strings:
+            ex_cases.append("validate %s %s" % (u, hx(s)))
+            for m in set(members[u]):
+                ex_cases.append("validate %s %s" % (m, hx(s)))
+    run.diff(ex_cases)
+    cx.dist["val:union:exhaustive-strings"] = len(ex_strings)
+    cx.rule("val: union EXHAUSTIVE sub-space: all %d strings of length <= %d over the 7-character alphabet {0,1,+,-,space,a,.} for three unions (and each "
+            "of their members alone) through lyd_value_validate" % (len(ex_strings), cx.n(3, 4)))
+
     # ---- (L) union_accept_iff: first accepting member, asked on its own
     accepted = {}
     for u in unions:
